@@ -40,6 +40,8 @@ pub struct Scenario {
     /// How the manifest is named on the command line (-f), when not by its
     /// canonical name.
     pub f_spelling: Option<String>,
+    /// Explore only the default completion order (for wide scenarios).
+    pub single_order: bool,
     pub note: String,
 }
 
@@ -62,6 +64,7 @@ impl Scenario {
             adopt: false,
             raw_depfile: BTreeMap::new(),
             f_spelling: None,
+            single_order: false,
             note: String::new(),
         }
     }
@@ -262,6 +265,108 @@ pub fn family_px() -> Vec<Scenario> {
                 }
             }
         }
+    }
+    out
+}
+
+/// RF: the manifest has a generator step but is up to date (or is
+/// regenerated identically); user commands fail under every -k.
+pub fn family_rf() -> Vec<Scenario> {
+    let mut out = Vec::new();
+    for shared in [0usize, 1] {
+        for touch in [false, true] {
+            for fail in [vec!["A"], vec!["C"], vec!["A", "C"]] {
+                for k in [None, Some(1), Some(2), Some(3)] {
+                    for j in [1usize, 3] {
+                        let base = regen_project("build.ninja", shared, 0);
+                        let mut s = Scenario::new(base.clone());
+                        s.prebuilt = true;
+                        if touch {
+                            s.edits.push(Edit::Touch("gen.in".into()));
+                        }
+                        s.edits.push(Edit::Touch("sa".into()));
+                        s.edits.push(Edit::Touch("sc".into()));
+                        s.generators.insert(
+                            "build.ninja".into(),
+                            Generator {
+                                manifest_name: "build.ninja".into(),
+                                next: base.clone(),
+                            },
+                        );
+                        for f in &fail {
+                            s.outcomes.insert(f.to_string(), Outcome::Fail);
+                        }
+                        s.k = k;
+                        s.j = j;
+                        s.targets = vec!["b".into(), "c".into()];
+                        s.note = format!("RF shared={} touch_gen={} fail={:?} k={:?} j={}", shared, touch, fail, k, j);
+                        out.push(s);
+                    }
+                }
+            }
+        }
+    }
+    out
+}
+
+/// RD: the generator writes a text in which a second statement produces an
+/// output that already has a producer (whole manifest, or only the included
+/// fragment while the main file stays untouched): the reloaded manifest must
+/// be rejected and nothing more may run.
+pub fn family_rd() -> Vec<Scenario> {
+    let mut out = Vec::new();
+    for shared in [0usize, 4] {
+        for dup in ["a", "./c", "x/../b"] {
+            for j in [1usize, 3] {
+                let base = regen_project("build.ninja", shared, 0);
+                let mut next = base.clone();
+                next.fragment_preamble = format!("rule dupr\n  command = DUP\nbuild {}: dupr\n", dup);
+                let mut s = Scenario::new(base.clone());
+                s.prebuilt = true;
+                s.edits.push(Edit::Touch("gen.in".into()));
+                s.edits.push(Edit::Touch("sa".into()));
+                let gen_file = match &base.fragment {
+                    Some((f, _)) => f.clone(),
+                    None => "build.ninja".to_string(),
+                };
+                s.generators.insert(
+                    gen_file.clone(),
+                    Generator {
+                        manifest_name: gen_file,
+                        next,
+                    },
+                );
+                s.j = j;
+                s.note = format!("RD shared={} duplicate producer of {} after regeneration j={}", shared, dup, j);
+                out.push(s);
+            }
+        }
+    }
+    out
+}
+
+/// W: many independent steps running at once (more than the display lists).
+pub fn family_w() -> Vec<Scenario> {
+    let mut out = Vec::new();
+    for (n, j) in [(10usize, 10usize), (12, 9), (9, 16)] {
+        let steps: Vec<Step> = (0..n)
+            .map(|i| Step {
+                outs: vec![format!("w{}", i)],
+                cmdline: format!("W{}", i),
+                ins: vec![(EdgeKind::Explicit, format!("src_w{}", i))],
+                ..Default::default()
+            })
+            .collect();
+        let mut s = Scenario::new(Project {
+            steps,
+            ..Default::default()
+        });
+        s.j = j;
+        // one order only: the width is the point, not the order
+        s.explore_order = false;
+        s.single_order = true;
+        s.note = format!("W {} independent steps at -j{}", n, j);
+        out.push(s);
     }
     out
 }
